@@ -8,9 +8,11 @@ come back is killed with its process group and attributed to the input (BEGIN wi
 is parsed twice and both normal forms are evaluated on the same valuations. Parse time is recorded per size of
 the normal form (a measurement written to the evidence, not a theorem).
 """
+import atexit
 import json
 import os
 import random
+import shutil
 import signal
 import subprocess
 import time
@@ -25,7 +27,9 @@ EXTRACT = "ExtractC03.v"
 MODEL_DEPS = ["theories/Query.v"]
 BOUND = 256        # promptness / termination is judged for inputs whose intermediate normal forms stay below this many conjuncts
 MAX_RESTARTS = 25   # after that many killed workers the tree is broken anyway; the rest is not run
-WATCHDOG_S = 2.0   # BEGIN without END for this long = hang (quick and thorough)
+WATCHDOG_S = 2.0   # BEGIN without END for this long (wall) AND ...
+WATCHDOG_CPU_S = 1.5   # ... this much CPU time burnt by the worker since BEGIN = hang (machine load alone never is)
+WATCHDOG_WALL_S = 20.0   # BEGIN without END for this long whatever the CPU time = hang (blocked)
 
 # ------------------------------------------------------------------ generators
 VOCAB = ["id", "tag", "service", "mark", "protocol", "generated", "ftime", "ltime", "time", "cdata", "sdata", "data",
@@ -108,6 +112,55 @@ def g_longlist(rng, tier):
     return ("protocol:" + ",".join(rng.choice(["tcp", "udp", "sctp", "other"]) for _ in range(min(n, 200)))).encode()
 
 
+# numerals whose MAGNITUDE must not matter: a range costs two conditions however wide it is
+WIDE_NUMS = [65535, 65536, 1 << 20, (1 << 20) + 1, 30000000, 50000000, (1 << 31) - 1, 1 << 31, (1 << 32) - 1, 1 << 32, (1 << 32) + 1,
+             4000000000, 10 ** 10, 10 ** 12, 1 << 53, (1 << 62), (1 << 63) - 2, (1 << 63) - 1]
+WIDE_FIXED = ["id:1:30000000", "id::50000000", "id:0:4000000000", "id:0:4294967296", "id:5,7:4294967296,9", "id:1,2,3,10:9223372036854775806",
+              "id:0:9223372036854775807", "id::9223372036854775806", "id:3:4,100:100000000,7", "id:1:2 or id:3:3000000000", "-id:2:4000000000",
+              "id:1,2 or id:9:90000000 or id:4", "cport:0:4000000000", "port:1:4294967295", "bytes:0:9223372036854775806", "cbytes::1000000000000",
+              "sbytes:5,6:99999999999,8", "id:1000000:2000000,3000000:900000000", "id:4294967295:8589934592", "(id:1:70000000)", "id:1:70000000 sort:id",
+              "id:" + ",".join("%d:%d" % (k * 10 ** 9, k * 10 ** 9 + 5 * 10 ** 8) for k in range(1, 9))]
+
+
+def g_wide(rng):
+    """lists mixing single values, narrow and very wide ranges, numerals near 2^16 / 2^32 / 2^63"""
+    key = rng.choice(["id", "id", "id", "id", "cport", "sport", "port", "cbytes", "sbytes", "bytes"])
+    def num():
+        r = rng.random()
+        if r < 0.35:
+            return rng.randrange(0, 5000)
+        n = rng.choice(WIDE_NUMS)
+        return max(0, n + rng.choice([0, 0, -1, 1, -rng.randrange(1000), rng.randrange(1000)]))
+    def item():
+        r = rng.random()
+        if r < 0.35:
+            return str(num())
+        if r < 0.85:
+            a, b = num(), num()
+            if rng.random() < 0.85:
+                a, b = min(a, b), max(a, b)
+            return "%d:%d" % (a, b)
+        if r < 0.93:
+            return ":%d" % num()
+        return "%d:" % num()
+    def flt():
+        t = key + ":" + ",".join(item() for _ in range(rng.choice([1, 1, 1, 2, 3, 5, 10])))
+        if rng.random() < 0.15:
+            t = "@" + rng.choice("ab") + ":" + t
+        return t
+    t = flt()
+    r = rng.random()
+    if r < 0.2:
+        t = t + " or " + flt()
+    elif r < 0.3:
+        t = "-" + t
+    elif r < 0.4:
+        t = "(" + t + ") " + rng.choice(["sort:id", "limit:5", "tag:a", "cdata:x"])
+    elif r < 0.45:
+        t = "-(" + t + " or " + flt() + ")"
+    return t.encode()
+
+
 def g_deep(rng):
     depth = rng.choice([5, 6, 7, 8])
     def rec(d):
@@ -186,8 +239,8 @@ def g_wellformed(rng):
     return c03.render(tr, rng).encode()
 
 
-REGIMES = [("wellformed", 0.22), ("arith", 0.14), ("longlist", 0.03), ("deep", 0.06), ("negdisj", 0.08),
-           ("tokens", 0.15), ("mutate", 0.22), ("badvalues", 0.10)]
+REGIMES = [("wellformed", 0.22), ("arith", 0.14), ("longlist", 0.03), ("wide", 0.03), ("deep", 0.06), ("negdisj", 0.08),
+           ("tokens", 0.14), ("mutate", 0.20), ("badvalues", 0.10)]
 
 
 def gen_inputs(rng, n, tier):
@@ -195,6 +248,9 @@ def gen_inputs(rng, n, tier):
     for i, v in enumerate(BADVALUES):
         inputs.append(v.encode("latin-1") if any(ord(c) > 127 and ord(c) < 256 for c in v) and all(ord(c) < 256 for c in v) else v.encode("utf-8"))
         regs.append("badvalues")
+    for v in WIDE_FIXED:
+        inputs.append(v.encode())
+        regs.append("wide")
     while len(inputs) < n:
         x, acc = rng.random(), 0.0
         reg = REGIMES[-1][0]
@@ -209,6 +265,8 @@ def gen_inputs(rng, n, tier):
             b = g_arith(rng)
         elif reg == "longlist":
             b = g_longlist(rng, tier)
+        elif reg == "wide":
+            b = g_wide(rng)
         elif reg == "deep":
             b = g_deep(rng)
         elif reg == "negdisj":
@@ -216,7 +274,7 @@ def gen_inputs(rng, n, tier):
         elif reg == "tokens":
             b = g_tokens(rng)
         elif reg == "mutate":
-            b = mutate(rng, rng.choice([g_wellformed, g_wellformed, g_arith, g_negdisj])(rng))
+            b = mutate(rng, rng.choice([g_wellformed, g_wellformed, g_wellformed, g_arith, g_arith, g_negdisj, g_negdisj, g_wide])(rng))
         else:
             b = mutate(rng, rng.choice(BADVALUES).encode("utf-8", "replace"))
         inputs.append(b)
@@ -225,11 +283,56 @@ def gen_inputs(rng, n, tier):
 
 
 # ------------------------------------------------------------------ watched worker
+_CLK = os.sysconf("SC_CLK_TCK") if hasattr(os, "sysconf") else 100
+
+
+def run_dir():
+    """one directory (and overlay file) per checking process: concurrent runs never share files"""
+    d = os.path.join(BUILD, "run", "c14", "p%d" % os.getpid())
+    if not os.path.isdir(d):
+        os.makedirs(d, exist_ok=True)
+        atexit.register(shutil.rmtree, d, True)
+        atexit.register(lambda: os.path.exists(os.path.join(BUILD, "overlay", "c14_p%d.json" % os.getpid())) and os.remove(os.path.join(BUILD, "overlay", "c14_p%d.json" % os.getpid())))
+    return d
+
+
+def worker_cpu(pgid, cache):
+    """CPU seconds (user+system) used so far by the test binaries of the worker's process group; None if unknown"""
+    def stat(pid):
+        try:
+            with open("/proc/%d/stat" % pid, "rb") as f:
+                raw = f.read().decode("latin-1")
+        except OSError:
+            return None
+        r = raw.rfind(")")
+        comm = raw[raw.find("(") + 1:r]
+        f = raw[r + 2:].split()
+        return comm, int(f[2]), (int(f[11]) + int(f[12])) / float(_CLK)   # pgrp, utime+stime
+    if not cache.get("pids"):
+        pids = []
+        try:
+            names = os.listdir("/proc")
+        except OSError:
+            return None
+        for n in names:
+            if n.isdigit():
+                st = stat(int(n))
+                if st and st[1] == pgid and st[0].endswith(".test"):
+                    pids.append(int(n))
+        cache["pids"] = pids
+    tot, seen = 0.0, False
+    for pid in cache.get("pids", []):
+        st = stat(pid)
+        if st:
+            tot += st[2]
+            seen = True
+    return tot if seen else None
+
+
 def run_worker(inputs, tag, seed, nvals, with_model):
     """Parses every input in worker subprocesses under the watchdog.
     -> ({i: record}, model_in path, restarts, note); record = {"status": ok|hang|mem|died, "est": .., "res": {...}}"""
-    d = os.path.join(BUILD, "run", "c14")
-    os.makedirs(d, exist_ok=True)
+    d = run_dir()
     cf = os.path.join(d, "cases_%s.txt" % tag)
     with open(cf, "w") as f:
         for b in inputs:
@@ -239,7 +342,7 @@ def run_worker(inputs, tag, seed, nvals, with_model):
     for p in (out, min_):
         if os.path.exists(p):
             os.remove(p)
-    ov = go_overlay(HARNESS, "c14")
+    ov = go_overlay(HARNESS, "c14_p%d" % os.getpid())
     recs, note, restarts, free_restarts = {}, "", 0, 0
     skip = 0
     pos = 0
@@ -254,6 +357,7 @@ def run_worker(inputs, tag, seed, nvals, with_model):
         proc = subprocess.Popen(cmd, cwd=REPO, env=env, stdout=subprocess.PIPE, stderr=subprocess.STDOUT,
                                 start_new_session=True)
         cur, cur_t0, cur_est, done, killed = None, None, None, False, None
+        cur_cpu0, pidcache = None, {}
         start = time.time()
         while True:
             progressed = False
@@ -270,7 +374,7 @@ def run_worker(inputs, tag, seed, nvals, with_model):
                         progressed = True
                         p = line.split(" ", 2)
                         if p[0] == "BEGIN":
-                            cur, cur_t0, cur_est = int(p[1]), time.time(), None
+                            cur, cur_t0, cur_est, cur_cpu0 = int(p[1]), time.time(), None, None
                         elif p[0] == "EST":
                             q = line.split(" ", 3)
                             cur_est = float(q[2])
@@ -291,11 +395,19 @@ def run_worker(inputs, tag, seed, nvals, with_model):
                             done = True
             if done or killed is not None:
                 break
+            if cur is not None and cur_cpu0 is None and time.time() - cur_t0 > 0.05:
+                # an input that is still open after a poll: remember the CPU time of the worker (slightly late = lenient)
+                cur_cpu0 = worker_cpu(proc.pid, pidcache)
             if cur is not None and time.time() - cur_t0 > WATCHDOG_S:
-                # a hang cannot be interrupted in-process: kill the worker and attribute it to this input
-                recs.setdefault(cur, {}).update({"status": "hang", "waited": time.time() - cur_t0})
-                killed = cur
-                break
+                # wall time alone may be machine load: the verdict needs CPU time burnt by the worker on this input
+                wall = time.time() - cur_t0
+                cpu = worker_cpu(proc.pid, pidcache)
+                used = cpu - cur_cpu0 if cpu is not None and cur_cpu0 is not None else None
+                if (used is not None and used > WATCHDOG_CPU_S) or wall > WATCHDOG_WALL_S:
+                    # a hang cannot be interrupted in-process: kill the worker and attribute it to this input
+                    recs.setdefault(cur, {}).update({"status": "hang", "waited": wall, "cpu_s": used})
+                    killed = cur
+                    break
             if proc.poll() is not None and not progressed:
                 # worker ended; read what is left once more, then stop
                 time.sleep(0.05)
@@ -409,7 +521,7 @@ def main(tier, seed, replay=None):
         if r["status"] in ("hang", "died"):
             if judged:
                 counts["hang_judged"] += 1
-                viol.append((i, "impl", "query.Parse did not return within %.1fs (estimated normal form size %s <= %d)%s" % (WATCHDOG_S, est, BOUND, " worker died: " + r.get("tail", "") if r["status"] == "died" else "")))
+                viol.append((i, "impl", "query.Parse did not return within %.1fs wall / %.1fs CPU (estimated normal form size %s <= %d)%s" % (WATCHDOG_S, WATCHDOG_CPU_S, est, BOUND, " worker died: " + r.get("tail", "") if r["status"] == "died" else "")))
             else:
                 counts["hang_not_judged"] += 1
             continue
@@ -494,12 +606,12 @@ def main(tier, seed, replay=None):
     cov.update({
         "trusted_base": TRUSTED_COMMON + [
             "participle lexer/parser, the value sub-parsers and binaryregexp.Compile are library code: not modelled, covered only by the watched input stream of this check",
-            "watchdog: a BEGIN line without its END line within %.1fs kills the worker's process group; the estimate of the normal-form size (harness vCost) decides whether the input is judged" % WATCHDOG_S,
+            "watchdog: a BEGIN line without its END line after %.1fs wall time during which the worker burnt more than %.1fs CPU time (or after %.0fs wall time whatever it burnt) kills the worker's process group; the estimate of the normal-form size (harness vCost: a function of the token structure, never of numeral magnitudes) decides whether the input is judged" % (WATCHDOG_S, WATCHDOG_CPU_S, WATCHDOG_WALL_S),
             "promptness figures are measurements on this machine, not theorems",
         ],
         "evaluations": len(inputs),
         "distinct_nontrivial": len(distinct),
-        "rule": "seeded inputs: well-formed queries (all filter kinds, depth<=4), arithmetic with repeated variables (factors != +-1), value lists up to 2000 entries, nesting depth 5-8, negated disjunctions, random token sequences of the lexer vocabulary, byte-level mutations (insert/delete/replace/duplicate/bit flip, non-UTF-8 included), %d hand-written malformed values and their mutations; each parsed in a subprocess under a %.1fs watchdog, accepted ones parsed twice and compared on 12 valuations; non-trivial = accepted input with >= 2 conjuncts, distinct by bytes" % (len(BADVALUES), WATCHDOG_S),
+        "rule": "seeded inputs: well-formed queries (all filter kinds, depth<=4), arithmetic with repeated variables (factors != +-1), value lists up to 2000 entries, number lists mixing single values with narrow and very wide ranges (numerals near 2^16, 2^32, 2^63; %d fixed ones), nesting depth 5-8, negated disjunctions, random token sequences of the lexer vocabulary, byte-level mutations (insert/delete/replace/duplicate/bit flip, non-UTF-8 included), %d hand-written malformed values and their mutations; each parsed in a subprocess under a %.1fs watchdog, accepted ones parsed twice and compared on 12 valuations; non-trivial = accepted input with >= 2 conjuncts, distinct by bytes" % (len(WIDE_FIXED), len(BADVALUES), WATCHDOG_S),
         "inputs": len(inputs), "verdicts": counts, "per_regime": per_regime, "worker_restarts": rinfo,
         "parsed_twice_and_compared": twice,
         "judged_bound_conjuncts": BOUND,
